@@ -106,28 +106,30 @@ reg('C17', 'static analysis: task-type dispatch exhaustiveness with a rejecting 
 
 # ---- additions of rounds 4 and 5 (appended to the technique text of each property)
 _ADD = {
-    'C01': 'state table built per class (own-class lookup of the "built" flag); cleanup isolation inside the terminal transition (shared with C02); tolerated communicator failures of the state-change announcement (shared with C16)',
-    'C02': 'tolerated broadcast failures (shared with C16); per-instance cleanup list (no mutable class-level default mutated in place); release of a blocked step on exit is a result, never a cancel (asyncio.CancelledError is a BaseException); listeners notified over a SNAPSHOT',
+    'C01': 'state table built per class (own-class lookup of the "built" flag); cleanup isolation inside the terminal transition (shared with C02); tolerated communicator failures of the state-change announcement (shared with C16); a failing scheduled callback fails the process through the guarded event at once, nothing deferred (shared with C03)',
+    'C02': 'tolerated broadcast failures (shared with C16); per-instance cleanup list (no mutable class-level default mutated in place); release of a blocked step on exit is a result, never a cancel (asyncio.CancelledError is a BaseException); listeners notified over a SNAPSHOT; cleanup loop over the live list (late registrations run); launcher reply read after stepping (shared with C17)',
     'C03': 'event-guard isinstance rule for fail() (shared with C13); path-based flag pairing (raised in or just before a try, lowered on every exit incl. exception edges); exactly-once path rule on the reply future of _schedule_rpc (shared with C20: the deferred pause\'s hook error reaches the requester); finally blocks around user code neither raise, assert nor return (call-summary says which bodies may run user code); only non-Exception classes or package signals handled by name up the chain are re-raised ahead of a catch-all',
     'C04': 'decision table "while the waiting future is pending every way through Waiting.interrupt fails it with the reason"; path-sensitive resolver of the action built per interruption; listener notification over a snapshot inside the per-listener try (shared with C02); who-may-forget-a-pending-pause table fencing in known finding G5',
-    'C05': 'decision table "the last awaitable completing always resolves the waiting future" (work chain); set_status stores whatever it is given; per-path fact queries (holds_on_every_path, site_fact_cases); decision tables of the message handlers over the intent: every control intent through the one scheduling routine (shared with C16); persisted rows of the pause status (shared with C07); listener snapshot (shared with C02)',
-    'C06': 'outcome of an interrupted step entered before the pause hooks (order rule on _do_pause); barrier-opens-when-empty decision table; state tables built per class (shared with C01 / C10)',
+    'C05': 'decision table "the last awaitable completing always resolves the waiting future" (work chain); set_status stores whatever it is given; per-path fact queries (holds_on_every_path, site_fact_cases); decision tables of the message handlers over the intent: every control intent through the one scheduling routine (shared with C16); persisted rows of the pause status (shared with C07); listener snapshot (shared with C02); deferred pause interrupts the running state by a direct call; every awaited item watched / removed only by the done-callback; waiting future replaced only after an interruption',
+    'C06': 'outcome of an interrupted step entered before the pause hooks (order rule on _do_pause); barrier-opens-when-empty decision table; state tables built per class (shared with C01 / C10); every awaited item watched / removed only by the done-callback; waiting future replaced only after an interruption; pause interrupts at once',
     'C07': 'key agreement over the save/load method CHAINS along the MRO per concrete class; declared-type rule (auto-persisted container of futures cannot be deep-copied); exception-class rule (constructor vs args, type-aware containment up to the EXCEPTED sink); persist() hook run before the member table is read, on the load side too (shared with C19); a saved mapping is handed to its constructor whole, never spread into named parameters; copy hooks keep the class; every YAML representer emits a tag a registered constructor reads back; loader precedence (shared with C19); member copy as a decision table',
-    'C08': 'pause-hook order rule (shared with C06); resume-only wake-up of a restored WAITING state (shared with C13); container-of-futures member rule (shared with C07); every member deep-copied into the checkpoint, no by-type fast path (shared with C07); copy hooks of persisted containers keep the class; pickle persister: the file is the store -- every path of load_checkpoint reads it, or save and delete drop the kept entry under the same key expression (shared with C14)',
-    'C09': 'spec built per class (fresh spec, filled by cls.define, own-class cache lookup); alias rule (ToContext is dict itself); one reading of in-order loops (for / enumerate / range(len) / index-driven while); step wrapper returns the result unchanged (shared with C13); instructions are read-only after construction (no method but __init__ stores into the shared outline); fallback to unsuccessful FINISHED keeps the result (shared with C12)',
-    'C10': 'barrier-opens-when-empty decision table; state table built per class; alias rule (ToContext is dict); registry keyed by the awaitable found in loops and dict comprehensions alike; re-raise-ahead-of-catch-all rule (shared with C03: a cancelled awaitable\'s error is an Exception)',
+    'C08': 'pause-hook order rule (shared with C06); resume-only wake-up of a restored WAITING state (shared with C13); container-of-futures member rule (shared with C07); every member deep-copied into the checkpoint, no by-type fast path (shared with C07); copy hooks of persisted containers keep the class; pickle persister: the file is the store -- every path of load_checkpoint reads it, or save and delete drop the kept entry under the same key expression (shared with C14); recreated stepper bound to the instruction itself; no fresh child stepper on load; waiting future replaced only after an interruption (shared with C06)',
+    'C09': 'spec built per class (fresh spec, filled by cls.define, own-class cache lookup); alias rule (ToContext is dict itself); one reading of in-order loops (for / enumerate / range(len) / index-driven while); step wrapper returns the result unchanged (shared with C13); instructions are read-only after construction (no method but __init__ stores into the shared outline); fallback to unsuccessful FINISHED keeps the result (shared with C12); no fresh child stepper on load (shared with C08)',
+    'C10': 'barrier-opens-when-empty decision table; state table built per class; alias rule (ToContext is dict); registry keyed by the awaitable found in loops and dict comprehensions alike; re-raise-ahead-of-catch-all rule (shared with C03: a cancelled awaitable\'s error is an Exception); per-instance table of awaited items (no mutable class-level default filled in place); every awaited item watched',
     'C11': 'construction order (initial state entered, i.e. inputs validated, before init() subscribes); every declared port validated in its loop iteration (no skipping continue); input encoding by deepcopy (shared with C07); a namespace is created only if absent (shared with C15); identity-compared sentinel copies to itself; every store of the frozen mapping\'s backing dict is a copy',
-    'C12': 'every declared port validated in its loop iteration (shared with C11); outputs deep-copied into and out of a checkpoint through the encode / decode hooks (shared with C07)',
-    'C13': 'the coroutine wrapper of a plain step function returns the result unchanged (no await / unwrapping); foreign-result rule over the subclasses of the waiting state (a subclass wake-up must be a registered done-callback)',
+    'C12': 'every declared port validated in its loop iteration (shared with C11); outputs deep-copied into and out of a checkpoint through the encode / decode hooks (shared with C07); exposed ports are copies with a fresh container per namespace (shared with C15)',
+    'C13': 'the coroutine wrapper of a plain step function returns the result unchanged (no await / unwrapping); foreign-result rule over the subclasses of the waiting state (a subclass wake-up must be a registered done-callback); Process.resume forwards *args unchanged (shared with C06)',
     'C14': 'taint walk: the pattern handed to fnmatch / glob is built from constants (a key spliced in unescaped is interpreted); string-building forms read alike (f-string / format / % / +); on every path load_checkpoint returns an object deserialised by this very call; file-is-the-store rule for the pickle persister\'s load path',
     'C15': 'constructor options of a namespace are properties with setters (what absorb copies is found by reflection); create-only-if-absent is a membership / is-None fact, not the truth value of a container; decision tables for the include+exclude rejection; identity-compared sentinel copies to itself (literal, or class whose copy hooks return self)',
     'C16': 'broadcast filter restricts the subject only; per-instance cleanup list; string-template reading of the announcement subject; the pid is assigned in what the constructor / the entering hook reaches (call graph), not in init(), so the first announcement carries it',
     'C17': 'class resolved by the loader of THIS load (shared with C19); persisted-field table (shared with C07); path-sensitive: on every path the instantiated class is the value of the loader call of this load; truth-value tests of the persister vs __len__/__bool__ of persister classes; loader-configured as a decision table over "a loader was given" with attribute values at exit spelled out along each path',
     'C18': 'scope recognised as "with _process_scope()" or as push ... try/finally pop, helpers inlined',
     'C19': 'fact-based exception-saved rule; nested saves looked up in the helper-inlined views',
-    'C20': 'alias rule (futures.Future is asyncio.Future itself); fact-based "cancelled() found false before result()"; adapter callback found as closure or as partial(private function, locals); a converted subscriber goes through create_task and plum_to_kiwi_future, the adapters whose paths are examined (shared with C16)',
+    'C20': 'alias rule (futures.Future is asyncio.Future itself); fact-based "cancelled() found false before result()"; adapter callback found as closure or as partial(private function, locals); a converted subscriber goes through create_task and plum_to_kiwi_future, the adapters whose paths are examined (shared with C16); the adapter callback is registered on every path through the adapter (no shortcut delivers the outcome some other way); callback found by role when split',
 }
 _COMMON = ('; all rules read the helper-inlined, alias-read-through, IfExp-lowered analysis VIEW of each function, on a program whose consistently renamed private names / local '
-           'functions were renamed back against a committed fingerprint baseline (plumpy_sa/alpha.py)')
+           'functions were renamed back against a committed fingerprint baseline and whose match / walrus / next() / search-loop / pair-update idioms were lowered to '
+           'plain statements (plumpy_sa/alpha.py); path rules prune branches the facts rule out; if a private attribute the rules are written against is no longer '
+           'stored in its class the check answers ANALYSIS-ERROR (exit 2) instead of judging')
 for _p, (_t, _x, _n) in list(CHECKS.items()):
     CHECKS[_p] = (_t + ('; ' + _ADD[_p] if _p in _ADD else '') + _COMMON, _x, _n)
